@@ -358,3 +358,20 @@ fn f24_special_probes_on_first_local_after_deleting_an_original_import() {
     let p = print(&o);
     assert_eq!(p.matches("i32.const 77").count(), 2, "{p}");
 }
+
+#[test]
+fn f25_component_nested_three_levels_deep_round_trips() {
+    let w = wat::parse_str(r#"(component
+        (component
+          (component
+            (core module (func))
+          )
+          (core module (func) (func))
+          (core type (func))
+        )
+        (core module (func) (func) (func))
+    )"#).unwrap();
+    let mut c = Component::parse(&w, false).unwrap();
+    let o = c.encode();
+    assert_eq!(print(&w), print(&o));
+}
